@@ -76,7 +76,7 @@ Pki g_pki;
 
 struct Policy {
     int auth = -1, check_time = -1, check_crl = -1, verify_name = -1; // -1 unset, 0 false, 1 true
-    int names = 0; // 0 unset, 1 matching (among others), 2 non-matching
+    int names = 0; // 0 unset, 1 matching (among others), 2 non-matching, 3 given but empty
     int trust = TK_A;
     int crl = CRL_COMPLETE;
     int cred = CK_VALID;
@@ -128,6 +128,7 @@ Verdict judge(const Eff &e, int trust, int crlkind, int peer_cred, bool peer_is_
         if (under_B) v.definitely_valid = false; // no CRL of B is ever configured
     }
     if (e.verify_name && e.names == 2) { v.disqualified = true; v.why = "none of the expected names is in the peer's certificate"; }
+    if (e.verify_name && e.names == 3) { v.disqualified = true; v.why = "name verification is on and the list of expected names is empty: no certificate can match"; }
     if (e.verify_name && e.names == 0) v.definitely_valid = false;
     if (peer_cred == CK_EKU_SERVER && !peer_is_tls_server) { v.disqualified = true; v.why = "the peer's certificate is for serverAuth only, the peer acts as TLS client"; }
     if (peer_cred == CK_EKU_CLIENT && peer_is_tls_server) { v.disqualified = true; v.why = "the peer's certificate is for clientAuth only, the peer acts as TLS server"; }
@@ -178,7 +179,8 @@ bool add_attrs(struct xcm_attr_map *m, const Policy &p, int peer_cred, bool full
     tri("tls.check_time", p.check_time);
     tri("tls.check_crl", p.check_crl);
     tri("tls.verify_peer_name", p.verify_name);
-    if (p.names) {
+    if (p.names == 3) { xcm_attr_map_add_str(m, "tls.peer_names", ""); desc += "tls.peer_names=\"\" "; }
+    else if (p.names) {
         std::string names = p.names == 1 ? "first.other.example.org:" + g_pki.name[peer_cred] + ":last.other.example.org" : "first.other.example.org:nobody.example.net";
         xcm_attr_map_add_str(m, "tls.peer_names", names.c_str());
         desc += "tls.peer_names=" + std::string(p.names == 1 ? "(matching) " : "(non-matching) ");
@@ -223,7 +225,7 @@ Policy gen_policy(Dec &d, bool full)
     p.check_crl = tri(35, 5);
     p.verify_name = tri(30, 5);
     uint32_t n = d.ch(10);
-    p.names = p.verify_name == 1 ? (n < 5 ? 1 : n < 9 ? 2 : 0) : (n == 0 ? 1 : 0);
+    p.names = p.verify_name == 1 ? (n < 4 ? 1 : n < 7 ? 2 : n < 9 ? 3 : 0) : (n == 0 ? 1 : 0);
     if (full) {
         static const int CW[] = {CK_VALID, CK_VALID, CK_VALID, CK_VIA_INT, CK_VIA_INT, CK_UNTRUSTED, CK_EXPIRED, CK_NOTYET, CK_REVOKED_LEAF, CK_REVOKED_INT, CK_EKU_SERVER, CK_EKU_CLIENT, CK_INT_EXPIRED};
         p.cred = CW[d.ch(13)];
@@ -377,6 +379,9 @@ public:
         if (!use_acc) { pa.auth = pa.check_time = pa.check_crl = pa.verify_name = -1; pa.names = 0; }
         uint32_t bias = cfg.ch(4);
         if (bias == 0) {
+            if (pc.names == 3) pc.names = 1;
+            if (ps.names == 3) ps.names = 1;
+            if (pa.names == 3) pa.names = 1;
             // steer a share of the cells towards the definitely-valid class (else it is rare)
             pc.cred = cfg.ch(2) ? CK_VALID : CK_VIA_INT; ps.cred = cfg.ch(2) ? CK_VALID : CK_VIA_INT;
             pc.trust = ps.trust = cfg.ch(2) ? TK_A : TK_AB;
@@ -404,7 +409,7 @@ public:
         int e = errno;
         xcm_attr_map_destroy(sm);
         c.log("server: %s-> %s", sdesc.c_str(), srv.s ? "ok" : errname(e));
-        bool srv_invalid = invalid_combo(es_srv, ps.names != 0, true);
+        bool srv_invalid = invalid_combo(es_srv, ps.names == 1 || ps.names == 2, true);
         // (a server socket with name verification but without names is accepted: names may still
         //  come with xcm_accept_a)
         c.cls(std::string("tp:") + tp_name(tp));
@@ -433,7 +438,7 @@ public:
         c.log("client: %s-> %s", cdesc.c_str(), cli.s ? "ok" : errname(e));
         // (name verification without names: the connect side would fall back to the host part of
         //  the address, which is an IP literal here -> nothing to verify against -> EINVAL)
-        bool cli_invalid = invalid_combo(ec, pc.names != 0, false) || (ec.verify_name && ec.names == 0);
+        bool cli_invalid = invalid_combo(ec, pc.names == 1 || pc.names == 2, false) || (ec.verify_name && (ec.names == 0 || ec.names == 3));
         if (cli_invalid) {
             if (cli.s) cli.closed = false;
             VF_CHECK(!cli.s, "C09: xcm_connect_a accepted an inconsistent TLS policy (%s)", cdesc.c_str());
@@ -453,7 +458,7 @@ public:
         pa.crl = ps.crl;
         bool need[2] = {!es_srv.auth, !es_srv.check_crl};
         if (am) add_attrs(am, pa, pc.cred, false, dir, "acc", adesc, need);
-        bool acc_invalid = invalid_combo(ea, pa.names != 0, false) || (ea.verify_name && ea.names == 0);
+        bool acc_invalid = invalid_combo(ea, pa.names == 1 || pa.names == 2, false) || (ea.verify_name && (ea.names == 0 || ea.names == 3));
         int acc_errno = 0;
         for (int i = 0; i < 3000 && !acc.s; i++) {
             sh_enter(acc.tag, 1);
